@@ -58,18 +58,13 @@ pub(crate) fn unit_tables() -> (Vec<(&'static str, f64)>, Vec<(&'static str, f64
 }
 
 pub(crate) fn stack_step(
-    definition: &str,
+    op: &Op,
     direction: Direction,
     stack: &mut Vec<Vec<f64>>,
     operands: &mut dyn CoordinateSet,
-) -> Result<usize, Error> {
-    let ctx = Minimal::default();
-    let op = Op::new(definition, &ctx)?;
-    if op.params.name != "stack" {
-        return Err(Error::Unsupported(definition.to_string()));
-    }
-    Ok(match direction {
+) -> usize {
+    match direction {
         Direction::Fwd => stack::stack_fwd(stack, operands, &op.params),
         Direction::Inv => stack::stack_inv(stack, operands, &op.params),
-    })
+    }
 }
